@@ -261,6 +261,7 @@ func runC05(c *core.Ctx) core.Meta {
 	checkHostWritesAfterRelease(c, NewPkgInfo(c, driverPkg), core.NewProv(c), "R05.8")
 	// R05.11: what the reporter reads after the last command is complete when the application resumes (c12.go, R12.14)
 	checkTraceAfterRelease(c, NewPkgInfo(c, driverPkg), "R05.11")
+	checkNoCountdownBeforeImmediateRetire(c, "R05.13", NewPkgInfo(c, driverPkg))
 	// R05.9: one ALU per compute unit (fresh.go)
 	checkPerUnitInstances(c, "R05.9")
 
